@@ -67,6 +67,10 @@ type c01Obs struct {
 	drainMs  int64
 	endMs    int64
 	extended bool
+
+	stalls     int   // times the drain loop of the harness was not scheduled for > c01StallGap
+	maxStallMs int64
+	starved    bool // the last such stall is less than c01QuietAfterStall before the end: missing rows cannot be judged
 }
 
 type c01Probe struct {
@@ -455,6 +459,7 @@ func c01Judge(e *c01Env) (violated bool) {
 	if sampledRows > 0 {
 		r.Inconclusive(fmt.Sprintf("scenario %s: %d marker rows arrived scaled by a sampling factor: budgets were exceeded, rows may have been dropped by sampling (by design) and missing rows cannot be judged", sc.Name, sampledRows))
 	}
+	missingStarved := 0
 	probesOK, probesTotal, healthy := o.probeHealth(ins)
 	stuckUnhealthy := 0
 	var once, dup int64
@@ -468,6 +473,11 @@ func c01Judge(e *c01Env) (violated bool) {
 		switch m.Expect {
 		case c01ExpectInsert:
 			ok := got >= m.Count-1e-9
+			if !ok && o.starved {
+				missingStarved++
+				r.NotJudged("row-missing-while-harness-process-was-frozen", 1)
+				continue
+			}
 			if !ok && sampledRows > 0 {
 				r.NotJudged("row-missing-while-sampling-was-active", 1)
 				continue
@@ -571,6 +581,14 @@ func c01Judge(e *c01Env) (violated bool) {
 	}
 	if short := float64(rs.nFuture) - rs.cntFuture; short > 0 {
 		r.NotJudged("aggregator-future-bucket-counter-row-not-seen-in-clickhouse", int64(short))
+	}
+	if o.stalls > 0 {
+		r.Count("drain.harness_stalls", int64(o.stalls))
+		r.MaxCounter("drain.harness_stall_ms.max", o.maxStallMs)
+	}
+	if missingStarved > 0 {
+		r.Inconclusive(fmt.Sprintf("scenario %s: %d accepted rows are in no completed INSERT, but the test process itself was frozen (%d stalls of the 250 ms drain loop, longest %d ms, the last one less than %v before the end): in-flight sends are invisible and their deadlines did not fire, not decided",
+			sc.Name, missingStarved, o.stalls, o.maxStallMs, c01QuietAfterStall))
 	}
 	if stuckUnhealthy > 0 {
 		r.Inconclusive(fmt.Sprintf("scenario %s: %d accepted rows are still held by the agent %d ms after faults stopped, but only %d of %d probe rows fed during the drain were inserted within %d ms: machine overloaded or pipeline wedged, the bounded-delivery clause was not decided",
